@@ -17,3 +17,7 @@ def replay(data):
 
 def known(f):
     return None
+
+
+def search(rep, tier, seed, b, dis):
+    p_c03.search(rep, tier, seed, b, dis, prop_key='same_stereo', clause=CLAUSE, ident=ID)
